@@ -573,3 +573,59 @@ Proof.
   - pose proof (f_read_dir_clean (w_fs w) v f n) as HC. destruct (f_read_dir (w_fs w) v f n). exact HC.
   - pose proof (f_readdirnames_clean (w_fs w) v f n) as HC. destruct (f_readdirnames (w_fs w) v f n). exact HC.
 Qed.
+
+(* ---- in plain words ------------------------------------------------------------------------------------------------ *)
+Lemma exception_dec (w : world) (c : call) (e : ekind) :
+  Some e = admin_exception w c \/ Some e <> admin_exception w c.
+Proof.
+  destruct (admin_exception w c) as [e'|]; [|right; discriminate].
+  destruct e, e'; first [left; reflexivity | right; discriminate].
+Qed.
+
+Theorem admin_no_eacces (w : world) (c : call) :
+  world_roots w -> admin_call w c ->
+  (snd (wstep w c) = RFail EPermDenied \/ exists p, snd (wstep w c) = RErrPath EPermDenied p) ->
+  exists hi mode, c = FChmod hi mode.
+Proof.
+  intros Hw Ha Hr. destruct (exception_dec w c EPermDenied) as [D|D].
+  - destruct c; cbn [admin_exception] in D; try discriminate D; try (destruct (ostype_eqb _ _); discriminate D). eauto.
+  - exfalso. destruct (admin_never_refused w c Hw Ha EPermDenied eq_refl D) as (N1 & N2).
+    destruct Hr as [Hr|(p & Hr)]; [exact (N1 Hr)|exact (N2 p Hr)].
+Qed.
+
+Theorem admin_no_eperm (w : world) (c : call) :
+  world_roots w -> admin_call w c -> snd (wstep w c) = RFail EOpNotPermitted ->
+  exists vi p uid gid, (c = CChown vi p uid gid \/ c = CLchown vi p uid gid) /\ view_os w vi = Windows.
+Proof.
+  intros Hw Ha Hr. destruct (exception_dec w c EOpNotPermitted) as [D|D].
+  - destruct c; cbn [admin_exception] in D; try discriminate D.
+    + exists vi, p, uid, gid. split; [left; reflexivity|]. destruct (view_os w vi); [discriminate D|reflexivity].
+    + exists vi, p, uid, gid. split; [right; reflexivity|]. destruct (view_os w vi); [discriminate D|reflexivity].
+  - exfalso. exact (proj1 (admin_never_refused w c Hw Ha EOpNotPermitted eq_refl D) Hr).
+Qed.
+
+Theorem admin_no_eperm_link (w : world) (c : call) :
+  world_roots w -> admin_call w c -> snd (wstep w c) = RFail EC_OpNotPermitted -> exists vi o n, c = CLink vi o n.
+Proof.
+  intros Hw Ha Hr. destruct (exception_dec w c EC_OpNotPermitted) as [D|D].
+  - destruct c; cbn [admin_exception] in D; try discriminate D; try (destruct (ostype_eqb _ _); discriminate D). eauto.
+  - exfalso. exact (proj1 (admin_never_refused w c Hw Ha EC_OpNotPermitted eq_refl D) Hr).
+Qed.
+
+(* non-vacuity: the initial world of MemFS (root 0755, /home, /root, /tmp made by the administrator) satisfies the
+   hypotheses; its only view is the administrator's *)
+Lemma init_views (um : N) :
+  w_views (init_world_linux um) = [ {| v_root := 0; v_cwd := [47%N]; v_user := root_user; v_umask := um; v_os := Linux; v_idm := true |} ].
+Proof. reflexivity. Qed.
+Lemma init_root_dir (um : N) : node_is_dir (f_heap (w_fs (init_world_linux um))) 0 = true.
+Proof. vm_compute. reflexivity. Qed.
+Lemma init_vols (um : N) : f_vols (w_fs (init_world_linux um)) = [].
+Proof. vm_compute. reflexivity. Qed.
+Example init_world_roots (um : N) : world_roots (init_world_linux um).
+Proof.
+  split.
+  - intros v Hin. rewrite init_views in Hin. destruct Hin as [<-|[]]. exact (init_root_dir um).
+  - intros name nd H. rewrite init_vols in H. discriminate H.
+Qed.
+Example init_admin_call (um : N) (c : call) : call_view (init_world_linux um) c = 0 -> admin_call (init_world_linux um) c.
+Proof. intros E v. rewrite E, init_views. intros [= <-]. reflexivity. Qed.
